@@ -49,7 +49,7 @@ def gather(chk):
     return items
 
 
-HEADER_FN = re.compile(r"^    (\S.*?) (eval\w+|on\w+)\((.*)\)\n    \{\n(.*?)^    \}\n", re.M | re.S)
+HEADER_FN = re.compile(r"^    (\S[^\n]*?) (eval\w+|on\w+)\(([^\n]*)\)\n    \{\n(.*?)^    \}\n", re.M | re.S)
 
 
 def header_token_check(header):
